@@ -470,7 +470,10 @@ def spelling_difference(a, b):
 
 
 def part_b(out, tier, scratch, w):
+    from odc.geo import crs as M
     from vlib import c19vals
+    M._crs_cache.clear()               # the families are built from a fresh cache state, whatever part (a) left
+    M._make_crs_transform.cache.clear()
     enc = c19vals.Enc(w)
     fams = c19vals.families(w, tier)
     cases, meta = [], []
